@@ -2,11 +2,15 @@
 import json
 
 PLAN = {
+    'C01': ['harness.fe_typeargs', 'harness.c11_layout'],
+    'C02': ['harness.fe_typeargs'],
+    'C03': ['harness.fe_typeargs'],
     'C04': ['harness.c04_roundtrip'],
     'C05': ['harness.c04_roundtrip'],
     'C06': ['harness.c06_decoder'],
     'C07': ['harness.c07_evolution'],
     'C08': ['harness.c08_validators'],
+    'C11': ['harness.c11_layout'],
     'C13': ['harness.c13_privacy'],
     'C14': ['harness.c14_client'],
     'C18': ['harness.c18_paths', 'harness.c18_emit'],
